@@ -5,6 +5,7 @@ mod c02;
 mod c03;
 mod c04;
 mod c06;
+mod c07;
 mod c09;
 mod report;
 mod c13;
@@ -87,6 +88,7 @@ fn main() {
         "C03" => c03::run(&tier),
         "C04" => c04::run(&tier),
         "C06" => c06::run(&tier),
+        "C07" => c07::run(&tier),
         "C09" => c09::run(&tier),
         "C13" => c13::run(&tier),
         "C15" => c15::run(&tier),
